@@ -14,6 +14,7 @@ quantified INPUT of every theorem below: `arrivals : List (parent × message)`.
 -/
 import Kap.Proofs.C12Union
 import Kap.Proofs.C12Join
+import Kap.Proofs.C12PairJ
 namespace Kap.Props.C12
 open Kap.C12 Kap.C12.Spec
 
@@ -163,20 +164,26 @@ example : (joinIntoPoint { parents := 2, tol := 0, fill := .num "i:0", names := 
     { time := 7, values := [some { time := 7, name := "m", grp := "", byName := false, dims := [], tags := [], fields := [("v", "i:1")] }, none] }).map (·.fields)
     = some [("a.v", "i:1"), ("b.v", "i:0")] := by decide
 
-/-- Full-strength statement of the pairing clause (stated, NOT yet proved; evaluated on every run by the spec
-oracle on the implementation's output — hook-driven runs with explicit arrival orders and real tasks — and
-tied by correspondence): when within every group every parent's rounded times never go back, then for
-EVERY arrival order the joined points emitted over the whole run (arrivals, then Finish) are, up to
-permutation, exactly `Spec.joinOutput`: per group and rounded time one point per occurrence index k, built
-from the k-th message of every parent that has one — dropped under an inner join unless all parents are
-present, filled otherwise. -/
-def join_pairs_by_occurrence_stmt : Prop :=
-  ∀ (cfg : JCfg) (ops : List JOp), cfg.names.length = cfg.parents → (∀ op ∈ ops, match op with
-      | .point src _ => src < cfg.parents | .barrier src _ _ => src < cfg.parents) →
-    joinOrdered cfg (ops.map (fun op => match op with
-      | .point src m => (src, m.grp, m.time) | .barrier src grp t => (src, grp, t))) →
-    (((JNode.run cfg ops).2.1).filterMap (joinIntoPoint cfg)).Perm
-      (joinOutput cfg (ops.filterMap (fun op => match op with | .point src m => some (src, m) | .barrier _ _ _ => none)))
+/-- **join_pairs_by_occurrence** — for EVERY arrival order of points and barriers (any number of parents and
+groups, any tolerance/fill/names): when within every group every parent's rounded times never go back
+(`joinOrdered`; by `round_monotone` this follows from plain time order), the joined points emitted over the
+whole run (arrivals, then Finish) are, up to permutation, exactly `Spec.joinOutput`: per group and rounded
+time one point per occurrence index k, built from the k-th message of every parent that has one — dropped
+under an inner join unless all parents are present, filled otherwise, fields prefixed by the as() names.
+Nothing is lost, duplicated or paired differently, whatever the interleaving. -/
+theorem join_pairs_by_occurrence (cfg : JCfg) (ops : List JOp) (hn : cfg.names.length = cfg.parents)
+    (hs : ∀ op ∈ ops, op.srcOf < cfg.parents) (ho : joinOrdered cfg (stepsOf ops)) :
+    (((JNode.run cfg ops).2.1).filterMap (joinIntoPoint cfg)).Perm (joinOutput cfg (pointsOf ops)) :=
+  join_pairs cfg ops hn hs ho
+
+/-- Non-vacuity: two parents, duplicates at one time, parent 1 lagging, a barrier, outer fill. -/
+example : let cfg : JCfg := { parents := 2, tol := 0, fill := .num "i:0", names := ["a", "b"], delim := ".", sname := "" }
+    let m (t : Int) (v : String) : JMsg := { time := t, name := "m", grp := "", byName := false, dims := [], tags := [], fields := [("v", v)] }
+    let ops : List JOp := [.point 0 (m 1 "i:1"), .point 0 (m 1 "i:2"), .point 1 (m 1 "i:3"), .barrier 1 "" 1, .point 0 (m 2 "i:4"), .point 1 (m 3 "i:5")]
+    joinOrdered cfg (stepsOf ops) ∧
+    (((JNode.run cfg ops).2.1).filterMap (joinIntoPoint cfg)).map (·.fields) =
+      [[("a.v", "i:1"), ("b.v", "i:3")], [("a.v", "i:2"), ("b.v", "i:0")], [("a.v", "i:4"), ("b.v", "i:0")], [("a.v", "i:0"), ("b.v", "i:5")]] := by
+  decide
 
 /-- Consequence of the statement above (stated, not proved): the multiset of join outputs is the same for any
 two arrival orders that are interleavings of the same per-parent sequences. -/
